@@ -71,6 +71,7 @@ Definition step_tags (st : mfile) (s : step) (o : outcome) : list N :=
   (20 + outcome_code o) ::
   match s with
   | SReopen => []
+  | STear _ zero => [if zero then 59 else 58]
   | SAdd cs ord =>
       (match cs with [] => [38] | _ => [] end) ++ cs_tags (mf_man st) cs ++
       (match o with
